@@ -93,21 +93,36 @@ def r1_mirror(a, tier):
 
 
 def _replace_chain(fn):
-    """[(old, new)] for `return s.replace(a, b).replace(c, d)` bodies."""
-    rets = [r.value for r in walk_no_defs(fn.node) if isinstance(r, ast.Return) and r.value is not None]
-    if len(rets) != 1:
+    """[(old, new)] for a function that only applies str.replace with literal operands to its argument, as one chained expression or over several
+    statements (`s = s.replace(a, b)` ... `return s.replace(c, d)`)."""
+    params = [x.arg for x in fn.node.args.args]
+    if not params:
         return None
-    chain = []
-    e = rets[0]
-    while isinstance(e, ast.Call) and isinstance(e.func, ast.Attribute) and e.func.attr == 'replace' and len(e.args) == 2:
-        try:
-            chain.append((ast.literal_eval(e.args[0]), ast.literal_eval(e.args[1])))
-        except Exception:  # noqa: BLE001
+    chains: dict[str, list] = {params[0]: []}
+
+    def chain_of(e):
+        calls = []
+        while isinstance(e, ast.Call) and isinstance(e.func, ast.Attribute) and e.func.attr == 'replace' and len(e.args) == 2:
+            try:
+                calls.append((ast.literal_eval(e.args[0]), ast.literal_eval(e.args[1])))
+            except Exception:  # noqa: BLE001
+                return None
+            e = e.func.value
+        if not isinstance(e, ast.Name) or e.id not in chains:
             return None
-        e = e.func.value
-    if not isinstance(e, ast.Name):
-        return None
-    return list(reversed(chain))
+        return chains[e.id] + list(reversed(calls))
+    body = [x for x in fn.node.body if not (isinstance(x, ast.Expr) and isinstance(x.value, ast.Constant))]
+    for st in body:
+        if isinstance(st, ast.Assign) and len(st.targets) == 1 and isinstance(st.targets[0], ast.Name):
+            c = chain_of(st.value)
+            if c is None:
+                return None
+            chains[st.targets[0].id] = c
+        elif isinstance(st, ast.Return) and st.value is not None:
+            return chain_of(st.value)
+        else:
+            return None
+    return None
 
 
 def r2_codecs(a, tier):
